@@ -438,7 +438,7 @@ func TestFrameClient(t *testing.T) {
 			c.Payloads = append(c.Payloads, genPayload(t, fmt.Sprintf("p%d", i), &big))
 		}
 		huge := false
-		if ev.Thorough() && rapid.IntRange(0, 99).Draw(t, "huge") == 0 { // ~2 s each under -race
+		if ev.Thorough() && rapid.IntRange(0, 49).Draw(t, "huge") == 31 { // ~1% of cases, ~2 s each under -race (rapid favours the bounds of a range: not "== 0")
 			// beyond the 10 MiB fast path of frame.Reader
 			c.Payloads[0].Len = 10<<20 + rapid.IntRange(-1, 70000).Draw(t, "huge_len")
 			huge = true
